@@ -120,11 +120,14 @@ class TOpt(Ty):
 
 
 class TDict(Ty):
-    def __init__(self, k, v, measures=(), ordered=False, weak=False):
+    def __init__(self, k, v, measures=(), ordered=False, weak=False, maybe_default=False):
         self.k, self.v = k, v
         self.measures = tuple(measures)  # record-field names summed by the ghost sum
         self.ordered = ordered
         self.weak = weak
+        # the dictionary may be a collections.defaultdict handed in by the user: subscripting a missing key then INSERTS some default value and
+        # returns it instead of raising KeyError (both behaviours are explored)
+        self.maybe_default = maybe_default
 
     def __repr__(self):
         return "Dict<%r,%r>%s" % (self.k, self.v, "w" if self.weak else "")
